@@ -180,6 +180,9 @@ def boundary_sources():
         out.append((f"gen/binder_{n}", f"fn apply<F>(f: F)\nwhere\n    F: for<'first, 'second, 'third> Fn(&'first str, &'second str) -> &'third str,\n    for<'x{a}> &'x{a} F: Copy,\n{{\n}}\ntype Cb{a} = for<'first_lifetime, 'second_lifetime> fn(&'first_lifetime u8, &'second_lifetime u8);\nfn g(x: &dyn for<'long_lifetime_name_{a}> Fn(&'long_lifetime_name_{a} u8)) {{}}\n"))
         out.append((f"gen/emptyfn_{n}", f"fn e{a}(first_parameter: u32, second_parameter: u32) {{}}\nimpl S {{\n    fn m{a}(&self) {{}}\n    fn n(&self) -> u32 {{\n        {a}\n    }}\n}}\nstruct Empty{a} {{}}\nenum Never{a} {{}}\ntrait Marker{a} {{}}\n"))
         out.append((f"gen/tuple1_{n}", f"fn f((a,): (u32,), t: (u8,)) -> (u32,) {{\n    let (x,) = t;\n    let v{a} = match t {{\n        (y,) => y,\n    }};\n    for (k,) in items {{\n        g(|(c,)| c, Some((k,)), (x,), [(v{a},)]);\n    }}\n    if let Some((w,)) = opt {{\n        return ({a},);\n    }}\n    (a,)\n}}\n"))
+        out.append((f"gen/labelblock_{n}", f"fn f() {{\n    let x = 'a: {{ break 'a value_{a} }};\n    g(|| 'b: {{ break 'b {a} }}, 'c: {{ break 'c 1 }});\n    let y = Some('outer: {{ break 'outer compute({a}) }});\n}}\n"))
+        out.append((f"gen/closurefit_{n}", f"fn f(y: u32) {{\n    consume(|x| x.method({a}) + bbbbbbbb);\n    consume(|x| x.method({a}a) + bbbbbbbb);\n    consume(|x| x.method({a}aa) + bbbbbbbb);\n    let h = match y {{\n        1 => |x| x.method({a}) + bbbbbbbbbbbb,\n        2 => |x| x.method({a}a) + bbbbbbbbbbbb,\n        _ => |x| x.method({a}aa) + bbbbbbbbbbbb,\n    }};\n}}\n"))
+        out.append((f"gen/wraptoken_{n}", f"// A first comment line that is long enough to be wrapped because it is longer than the comment width {a} of eighty columns.\n// 0123456789abcdef0123456789abcdef0123456789abcdef0123456789abcdef0123456789abcdef0123456789abcdef{a} and a tail of words\nfn f() {{\n    let x = 1;\n    // Another comment line, inside a function body this time, long enough to be wrapped {a} at eighty columns.\n    // some_crate::some_module::another_module::yet_another_module::and_one_more::SomeVeryLongTypeName{a} tail words\n    let y = 2;\n}}\n"))
         out.append((f"gen/quals_{n}", f"pub(crate) const unsafe extern \"C\" fn {a}<'a, T>(x: &'a mut T) -> impl Iterator<Item = &'a T> + 'a {{}}\npub async unsafe fn g{a}(self: Pin<&mut Self>) {{}}\n"))
     return out
 
